@@ -34,8 +34,10 @@ META = dict(
                "not exist in the tree (Tag, MarkTag: never None; ArchiverTag: always None) — a UOD-defined subclass "
                "could break the column count and is outside the model. Runs on one archiver whose tag collection differs "
                "from the previous run's (the archiver asks its tags_accessor at every start) are decided by the "
-               "property oracle on real files only: the archiver model and its theorems have one tag list per "
-               "history. 'Reads back exactly' is read as: the text that was "
+               "property oracle on real files; in the model a change of collection is the replacement of the tag list "
+               "after on_stop, and OPM.C39.changed_collection_run proves that the run after it is the run of a fresh "
+               "archiver over the new tags (its files have the new header's columns and read back exactly) — the "
+               "driver has no such op, so this part of the model is tied to the code by the oracle only. 'Reads back exactly' is read as: the text that was "
                "written comes back unchanged; for a float tag the written text is, as Tag.archive documents it, the "
                "value in '%0.5f' (the model formats the exact binary value, correctly rounded, ties to even, and is "
                "compared on arbitrary doubles), so the oracle allows |read - value| <= 5e-6 for floats and demands "
@@ -48,7 +50,7 @@ META = dict(
 )
 MODULE = "OPM.Properties.C39"
 REQUIRED = ["OPM.C39.read_written_rows", "OPM.C39.archive_reads_back", "OPM.C39.rows_have_header_columns",
-            "OPM.C39.finished_archives_read_back"]
+            "OPM.C39.finished_archives_read_back", "OPM.C39.run_frame", "OPM.C39.changed_collection_run"]
 
 SPECIAL = [",", "\\", '"', "\r", "\n", "a", ";", " "]
 UNITS = [None, "L/h", "%", "degC", "kg", "mS/cm"]
@@ -777,8 +779,8 @@ def _run(ctx: Check, tmp: str) -> int:
         "CPython csv writer/reader and text-file line splitting are modelled for this dialect and validated differentially",
         "tag classes are the ones in the tree: archive() is None for ArchiverTag only, and then always",
         "runs whose tag collection differs from the previous run's (other tags, other order, the archiver tag a member "
-        "elsewhere or not at all; same ArchiverTag instance) are judged by the property oracle on the real files only: "
-        "the archiver model has one tag list per history, the theorems hold per tag list",
+        "elsewhere or not at all; same ArchiverTag instance) are judged by the property oracle on the real files; the "
+        "model side is OPM.C39.changed_collection_run (tag list replaced after on_stop), not driven by a stream",
         "several runs per history (Stop = next file name); starts below the disk-space guard (os.statvfs and get_free_space_mb report "
         "2 MB) prepare no file: such a run has no archive and no rows, what was archived is judged per file left "
         "behind (each must start with the header of its tags); read_last_run_archive raising FileNotFoundError for a "
